@@ -519,6 +519,8 @@ class Printer:
         obj = callee['inner'][0]
         name = callee['name']
         args = n['inner'][1:]
+        # defaulted trailing arguments are not printed (as for constructors): the stub is the overload with the explicit arguments
+        while args and args[-1].get('kind') == 'CXXDefaultArgExpr': args = args[:-1]
         cls = self.owner_cls(callee.get('referencedMemberDecl'), obj)
         ptypes = self.method_ptypes(callee.get('referencedMemberDecl'))
         cname = self.method_cname(cls, name, len(args))
@@ -734,7 +736,20 @@ class Printer:
             fe = self.boost_foreach(n, ind)
             if fe is not None: return fe
             if n.get('hasInit') or n.get('hasVar'): raise ExtractionBreak('if with init/condition variable')
-            out = [ind + 'if (%s)' % self.expr(inner[0])]
+            ncalls = len(self.calls)
+            ce = self.expr(inner[0])
+            if any(c in self.maythrow for c in self.calls[ncalls:]):
+                # a call in the condition may throw: evaluate the condition first, leave on an exception, branch afterwards
+                self.ifconds = getattr(self, 'ifconds', 0) + 1
+                t = '__verif_cond%d' % self.ifconds
+                out = [ind + '{', ind + '  _Bool %s = (%s);' % (t, ce), ind + '  if (VERIF_thrown) { %s }' % self.default_return(), ind + '  if (%s)' % t]
+                out += self.block(inner[1], ind + '  ')
+                if n.get('hasElse') or len(inner) > 2:
+                    out.append(ind + '  else')
+                    out += self.block(inner[2], ind + '  ')
+                out.append(ind + '}')
+                return out
+            out = [ind + 'if (%s)' % ce]
             out += self.block(inner[1], ind)
             if n.get('hasElse') or len(inner) > 2:
                 out.append(ind + 'else')
@@ -788,10 +803,10 @@ class Printer:
         if k == 'CaseStmt':
             inner = n['inner']
             out = [ind + 'case %s:' % self.expr(inner[0])]
-            out += self.stmt(inner[-1], ind + '  ')
+            out += self.stmt(inner[-1], ind + '  ') or [ind + '  ;']     # a label needs a statement (the labelled one may have been dropped)
             return out
         if k == 'DefaultStmt':
-            return [ind + 'default:'] + self.stmt(n['inner'][-1], ind + '  ')
+            return [ind + 'default:'] + (self.stmt(n['inner'][-1], ind + '  ') or [ind + '  ;'])
         if k.startswith('OMP') and k.endswith('Directive'):
             self.dropped.append(k)
             for c in n.get('inner', []):
